@@ -4,4 +4,6 @@ import FluteModel.Props.C01
 import FluteModel.Props.C01Link
 -- one reference predicate for add_object admission, equivalent to the three component models' (agent toi): Flute.Props.C01.Admission
 import FluteModel.Props.AdmissionLink
+import FluteModel.Props.AdmissionLinkFdt
+import FluteModel.Props.AdmissionLinkSession
 #audit_ns Flute.Props.C01
